@@ -2,6 +2,8 @@
 
 package proxy
 
+import "github.com/datastax/go-cassandra-native-protocol/primitive"
+
 // Hooks for the verification harness in /verif. Compiled only with `-tags verif`.
 
 // VerifParseProtocolVersion exposes the option parser used for --protocol-version / --max-protocol-version.
@@ -17,4 +19,13 @@ func VerifUnmarshalConsistency(s string) (level uint16, ok bool) {
 		return 0, false
 	}
 	return uint16(w.ConsistencyLevel), true
+}
+
+// VerifSetWriteConsistencyOverride fills the unexported-typed consistency options of a Config.
+func VerifSetWriteConsistencyOverride(cfg *Config, unsupported []uint16, override uint16) {
+	cfg.UnsupportedWriteConsistencies = nil
+	for _, u := range unsupported {
+		cfg.UnsupportedWriteConsistencies = append(cfg.UnsupportedWriteConsistencies, clWrapper{primitive.ConsistencyLevel(u)})
+	}
+	cfg.UnsupportedWriteConsistencyOverride = clWrapper{primitive.ConsistencyLevel(override)}
 }
